@@ -6,6 +6,7 @@
 //! `known_findings.json`, writes replay artefacts and decides the exit code.
 
 pub mod e2;
+pub mod isolate;
 pub mod tree;
 
 use std::{
